@@ -32,7 +32,7 @@ from rv.usb2host import UTMIHost, init_device_signals
 from rv.ref import usb2 as U
 
 PROPERTY = "C29"
-CASES = {"quick": 400, "thorough": 6400}
+CASES = {"quick": 360, "thorough": 6000}
 RULE = ("case = (byte_width 1..8, max packet 8/16/32/64, endpoint 1..15, tx_ready profile, producer profile, host profile) "
         "+ 30-120 words with first/last/value/gap patterns and an IN-poll schedule with missing ACKs and pauses; "
         "non-trivial = words were stalled by a full byte endpoint, accepted back-to-back and carried first and last; "
